@@ -676,3 +676,53 @@ def check_models(run, traces):
             dis.setdefault(op, []).append({'program': prog.key, 'source': prog.function_source()[-1500:] if prog.kind != 'context' else prog.source[len(CTX_PRELUDE):],
                                            'config': cfg_key(*cfg), 'detail': detail[:600]})
     return counts, dis, skipped
+
+
+# ------------------------------------------------------------------------------------------------
+# history slice: the SAME function object converted through the real API (process-wide cache) under a
+# sequence of option sets differing in one feature
+# ------------------------------------------------------------------------------------------------
+HISTORY_FEATURES = ('BUILTIN_FUNCTIONS', 'EQUALITY_OPERATORS', 'LISTS', 'ASSERT_STATEMENTS')
+
+HISTORY_PROGRAMS = {
+    'print_len_range_nested': (
+        'def f(a, b, c, l):\n    def g(p):\n        print(tr(1, p))\n        return len(l) + p\n    x = 0\n'
+        '    for i in range(2):\n        x = x + g(i)\n    print(tr(2, x), a == b)\n    return x\n'),
+    'eq_assert_list': (
+        'def f(a, b, c, l):\n    m = [a, b]\n    m.append(c)\n    assert len(m) == 3, "m"\n'
+        '    if a != b and m[0] == a:\n        print(tr(3, a))\n    return (a == b, m[2] != c, len(m))\n'),
+    'lambda_comp': (
+        'def f(a, b, c, l):\n    k = (lambda q: print(tr(4, q)) or q == a)(b)\n'
+        '    r = [abs(q) for q in l if q != c]\n    assert k or not k\n    return (k, r, max(r + [0]))\n'),
+    'while_print': (
+        'def f(a, b, c, l):\n    x = 0\n    while x != 2:\n        x = x + 1\n        print(tr(5, x))\n'
+        '        if x == b:\n            break\n    return int(x == 2) + len(l)\n'),
+}
+
+
+def history_pairs(all_pairs):
+    """Ordered pairs (A, B) of feature subsets differing in exactly one feature, as sorted name tuples."""
+    feats = HISTORY_FEATURES
+    out = []
+    for mask in range(1 << len(feats)):
+        for k, f in enumerate(feats):
+            if mask >> k & 1:
+                continue
+            lo = tuple(x for j, x in enumerate(feats) if mask >> j & 1)
+            hi = tuple(x for j, x in enumerate(feats) if (mask | 1 << k) >> j & 1)
+            out.append((lo, hi))
+            out.append((hi, lo))
+    if not all_pairs:
+        # quick: every pair that flips BUILTIN_FUNCTIONS or EQUALITY_OPERATORS (what C04's checker can see), a sample of the rest
+        out = [p for n, p in enumerate(out) if set(p[0]) ^ set(p[1]) <= {'BUILTIN_FUNCTIONS', 'EQUALITY_OPERATORS'} or n % 8 == 0]
+    return out
+
+
+def history_programs():
+    out = []
+    for name, fsrc in HISTORY_PROGRAMS.items():
+        p = progen.Program(CTX_PRELUDE + fsrc, [(1, 2, 3, [1, 2]), (2, 2, 0, [0, 3])], {'history:' + name}, 'context',
+                           decisions=[[1, 0, 1, 0]])
+        p.construct, p.context, p.shape = 'history:' + name, 'history', 'history'
+        out.append(p)
+    return out
